@@ -1217,7 +1217,12 @@ func (r *Raft) RequestVote(request *RequestVoteRequest, response *RequestVoteRes
 	// 1. This node is a leader and it has recently has successful contact with
 	//    a majority of the cluster (it has a valid lease).
 	// 2. This node is a follower and it has been recently contacted by the leader.
+	//
+	// A leader has had contact with a majority of the cluster whenever its lease was renewed. Like
+	// for a follower, the contact is recent if it happened within an election timeout - the lease
+	// itself may be shorter than the interval between two rounds of heartbeats.
 	if r.operationManager.leaderLease.isValid() ||
+		r.operationManager.leaderLease.renewedWithin(r.options.electionTimeout) ||
 		time.Since(r.lastContact) < r.options.electionTimeout {
 		r.logger.Debugf(
 			"RequestVote RPC rejected: reason = recent contact from leader, knownLeader = %s",
